@@ -195,10 +195,9 @@ Fixpoint collect_frugals (fuel : nat) (m : module) (used : list str) (acc : list
     for `range module.ParsedIncludes` at this visit: the judge runs it with the identity, the
     theorems quantify over every choice (relation [trec_any] in the proofs file). *)
 Fixpoint trec (fuel : nat) (m : module) (acc : gomap module) : gomap module :=
-  let acc1 := store (m_file m) m acc in
   match fuel with
-  | O => acc1
-  | S f => fold_left (fun a e => trec f (snd e) a) (m_parsed m) acc1
+  | O => acc
+  | S f => fold_left (fun a e => trec f (snd e) a) (m_parsed m) (store (m_file m) m acc)
   end.
 
 (** html/generator.go:93-99 Modules.Less (after the repair: ties on Name are broken by File,
